@@ -193,6 +193,7 @@ def map_mixins(U):
     m.modifies("self.keys_storage", "self.values_storage")
     m.ensures("old(mem(self.keys_storage, result[0]) and maps_to(self, result[0], result[1]))", "returns-a-stored-pair")
     m.ensures("forall(y, iff(mem(self.keys_storage, y), mem(old(self.keys_storage), y) and y != result[0]))", "exactly-that-key-removed")
+    m.hint_exit("forall(y, iff(mem(self.keys_storage, y), mem(old(self.keys_storage), y) and y != key))", "delitem-removed-exactly-the-key")
     m.hint_exit("forall(w, 0, old(len(self.keys_storage)), implies(old(self.keys_storage)[w] != key,"
                 " maps_to(self, old(self.keys_storage)[w], old(self.values_storage)[w])))", "delitem-kept-the-others")
     m.ensures("forall(w, 0, old(len(self.keys_storage)), implies(old(self.keys_storage)[w] != result[0],"
